@@ -38,6 +38,10 @@ pub struct CdnCase {
     pub fresh_client: bool,
     /// 0 config, 1 data, 2 patch
     pub content_type: u8,
+    /// false: `download`; true: `download_archive_index` (same cache-then-fetch-then-store, its
+    /// own cache key and URL pattern)
+    #[serde(default)]
+    pub archive_index: bool,
 }
 
 pub fn all_cases() -> Vec<CdnCase> {
@@ -49,7 +53,9 @@ pub fn all_cases() -> Vec<CdnCase> {
     for (i, first) in firsts.into_iter().enumerate() {
         for cache_dir in [false, true] {
             for fresh_client in [false, true] {
-                v.push(CdnCase { first, cache_dir, fresh_client, content_type: ((i + usize::from(cache_dir)) % 3) as u8 });
+                for archive_index in [false, true] {
+                    v.push(CdnCase { first, cache_dir, fresh_client, content_type: ((i + usize::from(cache_dir)) % 3) as u8, archive_index });
+                }
             }
         }
     }
@@ -134,15 +140,24 @@ pub fn check(c: &CdnCase) -> Verdict {
         let ep = CdnEndpoint { host: format!("127.0.0.1:{port}"), path: "tpr/test".into(), product_path: None, scheme: Some("http".into()), is_fallback: false, strict: false, max_hosts: None };
         let key = [0x13u8, 0xCD, 1, 2, 3, 4, 5, 6, 7, 8, 9, 10, 11, 12, 13, 14];
         let ct = || [ContentType::Config, ContentType::Data, ContentType::Patch][usize::from(case.content_type) % 3];
+        let akey = hex::encode(key);
         let mut client = make()?;
-        let d1: Dl = tokio::time::timeout(Duration::from_secs(120), client.download(&ep, ct(), &key)).await.map(|r| r.map_err(|e| e.to_string())).map_err(|_| ());
+        let d1: Dl = if case.archive_index {
+            tokio::time::timeout(Duration::from_secs(120), client.download_archive_index(&ep, &akey)).await.map(|r| r.map_err(|e| e.to_string())).map_err(|_| ())
+        } else {
+            tokio::time::timeout(Duration::from_secs(120), client.download(&ep, ct(), &key)).await.map(|r| r.map_err(|e| e.to_string())).map_err(|_| ())
+        };
         let n1 = r2.load(Ordering::SeqCst);
         healthy.store(true, Ordering::SeqCst);
         if case.fresh_client {
             drop(client);
             client = make()?;
         }
-        let d2: Dl = tokio::time::timeout(Duration::from_secs(120), client.download(&ep, ct(), &key)).await.map(|r| r.map_err(|e| e.to_string())).map_err(|_| ());
+        let d2: Dl = if case.archive_index {
+            tokio::time::timeout(Duration::from_secs(120), client.download_archive_index(&ep, &akey)).await.map(|r| r.map_err(|e| e.to_string())).map_err(|_| ())
+        } else {
+            tokio::time::timeout(Duration::from_secs(120), client.download(&ep, ct(), &key)).await.map(|r| r.map_err(|e| e.to_string())).map_err(|_| ())
+        };
         let n2 = r2.load(Ordering::SeqCst);
         server.abort();
         Ok((d1, n1, d2, n2))
@@ -162,7 +177,7 @@ pub fn check(c: &CdnCase) -> Verdict {
     if d1.is_err() || d2.is_err() {
         return Verdict::fail("C13:cdn:download-does-not-return", what);
     }
-    let v = Verdict::pass().nontrivial(true).class_if(c.fresh_client, "second-download-by-a-new-client").class_if(c.cache_dir, "cache-directory");
+    let v = Verdict::pass().nontrivial(true).class_if(c.archive_index, "download_archive_index").class_if(c.fresh_client, "second-download-by-a-new-client").class_if(c.cache_dir, "cache-directory");
     match c.first {
         First::Content => {
             if d1 != Ok(Ok(BODY1.to_vec())) {
